@@ -424,12 +424,13 @@ class BaseCollection(BaseDisplayRepr):
             recursive=False,
             typechecks=True,
         )
-        self_objects = check_format_input_obj(
-            self,
-            allow="sensors+sources+collections",
-            recursive=recursive,
-        )
         for child in remove_objects:
+            # look the child up in the current tree (earlier removals may have changed it)
+            self_objects = check_format_input_obj(
+                self,
+                allow="sensors+sources+collections",
+                recursive=recursive,
+            )
             if child in self_objects:
                 rec_obj_remover(self, child)
                 child._parent = None
